@@ -23,6 +23,8 @@ type c12StallConn struct {
 	deadline time.Time
 	gone     chan struct{}
 	closed   bool
+	// slow: the peer does read, one message every nine seconds (just inside any write deadline)
+	slow bool
 }
 
 type c12TimeoutError struct{}
@@ -37,6 +39,14 @@ func (c *c12StallConn) Write(b []byte) (int, error) {
 	c.mu.Unlock()
 	if closed {
 		return 0, errors.New("use of closed connection")
+	}
+	if c.slow {
+		select {
+		case <-time.After(9 * time.Second):
+			return len(b), nil
+		case <-c.gone:
+			return 0, errors.New("use of closed connection")
+		}
 	}
 	if d.IsZero() {
 		<-c.gone
@@ -89,7 +99,7 @@ func VerifHarness_C12_stalled_peer() {
 	k.node.state.SetInSync()
 	u := vkUntrusted(ctx, k, "peer1", true)
 	u.outgoing.Open(3) // 100 in UntrustedNode.Run: the same code path, fewer pings needed
-	conn := &c12StallConn{gone: make(chan struct{})}
+	conn := &c12StallConn{gone: make(chan struct{}), slow: verifrt.Choose("the-peer-reads-one-message-every-nine-seconds", 2) == 1}
 	u.connection = net.Conn(conn)
 	k.node.untrustedLock.Lock()
 	k.node.untrustedNodes = append(k.node.untrustedNodes, u)
@@ -117,11 +127,11 @@ func VerifHarness_C12_stalled_peer() {
 	// the trusted chain moves on
 	processed := false
 	var berr error
-	start := verifrt.NowNanos()
+	start := time.Now() // (virtual inside the engine, the wall clock natively)
 	took := int64(-1)
 	go func() {
 		berr = k.node.ProcessBlock(ctx, vkBlock(*k.node.blocks.LastHash(), 1, nil))
-		took = verifrt.NowNanos() - start
+		took = int64(time.Since(start))
 		processed = true
 	}()
 	verifrt.Quiesce()
@@ -132,6 +142,10 @@ func VerifHarness_C12_stalled_peer() {
 	verifrt.Note("block processed=%v after %d ms err=%v", processed, took/1000000, berr)
 	verifrt.Sig("stalled-peer", "trusted-chain")
 	verifrt.Assert(processed && berr == nil, "C12.no-stall.a-stalled-untrusted-peer-does-not-block-the-trusted-chain")
+	// ... and not for as long as the peer likes either: the trusted side does not wait for an
+	// untrusted peer's socket
+	verifrt.Sig("stalled-peer", "delay")
+	verifrt.Assert(took >= 0 && took <= int64(2*time.Second), "C12.no-stall.the-trusted-chain-does-not-wait-for-an-untrusted-socket")
 	conn.Close()
 	verifrt.Reach("C12.stalled-peer.done")
 }
